@@ -25,4 +25,18 @@ def handleShortTip (what : String) (args : List String) : String :=
     | _ => "bad-op"
   | _, _, _, _ => "bad-args"
 
+/-- `gsubimpl ids=.. pids=.. types=.. xs=.. subids=.. subpids=..`: the GENERATED `to_subtree_impl` on the columns of a tree and a marked topology;
+`out_mapping` is a pre-filled list; prints the result columns id / pid / type / x, the mapping, the node count, and whether the input columns,
+`source` and `names` came back as they were -/
+def handleSubImpl (args : List String) : String :=
+  match Proto.argInts args "ids", Proto.argInts args "pids", Proto.argInts args "types", Proto.argInts args "xs",
+        Proto.argInts args "subids", Proto.argInts args "subpids" with
+  | some ids, some pids, some tys, some xs, some sids, some spids =>
+    match to_subtree_impl (A := Int) (Src := String) (Nm := Nat) ids pids tys xs "src" 42 (sids, spids) [7, 7] with
+    | some (om, i', p', t', x', (n, (nid, npid, nty, nx), src, nm)) =>
+      let same := decide (i' = ids) && decide (p' = pids) && decide (t' = tys) && decide (x' = xs) && src == "src" && nm == 42
+      s!"{Proto.showInts nid} / {Proto.showInts npid} / {Proto.showInts nty} / {Proto.showInts nx} / {Proto.showInts om} / {n} / {if same then "same" else "CHANGED"}"
+    | none => "E"
+  | _, _, _, _, _, _ => "bad-args"
+
 end AlgoRun
